@@ -173,7 +173,8 @@ def bank_specs(draw, kinds=BANK_KINDS, rates=RATES, max_filts=12, min_filts=1, a
             # octave scale: low_hz must be positive and not below the scale's own origin
             if spec["low_hz"] < 1.0:
                 spec["low_hz"] = float(draw(st.sampled_from([1.0, 10.0, 20.0, 50.0])))
-                if spec["high_hz"] is not None and spec["high_hz"] <= spec["low_hz"]:
+                # (keep the minimum width of the range: a band of 1e-10 Hz is constructible but its filters are 1e13 samples long)
+                if spec["high_hz"] is not None and spec["high_hz"] < spec["low_hz"] + 2.0 * (num_filts + 1) * rate * 4e-4 + 1.0:
                     spec["high_hz"] = float(nyq)
             sc = {"alias": "octave", "low_hz": min(sc["low_hz"], spec["low_hz"])}
         spec["scale"] = sc
